@@ -1,10 +1,12 @@
 -------------------------- MODULE Trace_QuerySession --------------------------
 (***************************************************************************)
 (* Trace validation of query sessions (C19).                               *)
-(* {"event":"fresh","d":i,"answers":[a..],"ser":[cp..]}  - every query of    *)
+(* {"event":"ser","k":n,"text":[cp..]} - the n-th DISTINCT serialization seen   *)
+(*    in this run (the recorder interns them: "ser"/"sers" below are indices) *)
+(* {"event":"fresh","d":i,"answers":[a..],"ser":k}  - every query of         *)
 (*    document i answered on a parse of its own with a context of its own. *)
 (* {"event":"session","d":i,"variant":s,"qs":[q..],"answers":[a..],        *)
-(*  "sers":[[cp..]..]} - one document, one context (variant "shared") or a  *)
+(*  "sers":[k..]} - one document, one context (variant "shared") or a       *)
 (*    fresh context per query (variant "percall"), the queries in series.  *)
 (* Answer k must be IdealAnswer(fresh[d], qs, k) and the serialization     *)
 (* after call k must be IdealSer(fresh[d]).  Answers are opaque values     *)
@@ -20,7 +22,7 @@ FreshIdx == { i \in 1..Len(Rec) : Rec[i].event = "fresh" }
 FreshOf(doc) == Rec[CHOOSE i \in FreshIdx : Rec[i].d = doc]
 
 Verdict(e) ==
-  IF e.event = "fresh" THEN [verdict |-> "ok"]
+  IF e.event \in {"fresh", "ser"} THEN [verdict |-> "ok"]
   ELSE IF \A i \in FreshIdx : Rec[i].d # e.d THEN [verdict |-> "TOOL-no-fresh-answers"]
   ELSE
   LET fr == FreshOf(e.d)
